@@ -24,7 +24,7 @@ ASSUMPTIONS = ["reference root rule (vf/refs/models.py), reference signer"]
 
 CLASSES = ["honest", "honest", "honest", "honest_junk", "replay_current", "rollback", "skip", "revoked", "self_appointed",
            "insufficient_old", "insufficient_new", "type_confused", "malformed", "corrupted_sigs", "wrong_payload_sigs",
-           "replayed_signatures", "replayed_signatures"]
+           "replayed_signatures", "replayed_signatures", "draft_threshold_above_keys", "draft_threshold_above_keys"]
 
 
 def plan(tier, seed):
@@ -59,6 +59,7 @@ def gen_offer(cls, trusted, accepted_log, rng):
     K2 = K2[:4]
     t2 = rng.randint(1, len(K2))
     need_old = rng.sample(K, t) if t <= len(K) else list(K)
+    t_eff = min(t, len(K))
     need_new = rng.sample(K2, t2)
     signers = {k.hex: k for k in need_old + need_new}
     adversarial = False
@@ -89,7 +90,7 @@ def gen_offer(cls, trusted, accepted_log, rng):
         return rootchain.signed_root(v + 1, att, 1, att, rng), True
     if cls == "insufficient_old":
         # one fewer than the threshold of current keys (+ everything the new rule needs from non-current keys)
-        part = rng.sample(K, max(0, min(t, len(K)) - 1))
+        part = rng.sample(K, max(0, t_eff - 1))
         newonly = [k for k in K2 if k.hex not in Kh]
         K2b = newonly or outsiders[:1] or [gkeys.key(21)]
         return rootchain.signed_root(v + 1, K2b + part, max(1, len(K2b)), part + K2b, rng), True
@@ -111,6 +112,12 @@ def gen_offer(cls, trusted, accepted_log, rng):
         good["signed"]["delegations"]["root"]["pubkeys"] = [k.hex for k in att] + good["signed"]["delegations"]["root"]["pubkeys"]
         good["signed"]["delegations"]["root"]["threshold"] = 1
         return good, True
+    if cls == "draft_threshold_above_keys":
+        # legal "draft" shape: the offered root demands more signers than it lists; every listed key (and a threshold of the
+        # current keys) signs, further entries follow - it can never satisfy its own rule and must not be stepped into
+        extra = outsiders[:2]
+        return rootchain.signed_root(v + 1, K2, len(K2) + 1, list({k.hex: k for k in need_old + K2}.values()), rng,
+                                     unauthorized=extra, junk=1), False
     if cls == "replayed_signatures":
         # forged successor of the CURRENT trusted root that re-uses, verbatim, the signature entries the
         # library verified when it accepted that root (same keys, same thresholds, attacker-chosen content)
@@ -126,6 +133,8 @@ def gen_history(rng, maxlen):
     U = rootchain.uni()
     K = rng.sample(U, rng.randint(1, 3))
     t = rng.randint(1, len(K))
+    if rng.random() < 0.15:
+        t = len(K) + 1  # the trusted root itself is a "draft": nobody can ever meet its threshold
     initial = rootchain.signed_root(rng.choice([1, 1, 5, 2**31]), K, t, K, rng)
     n = rng.randint(4, maxlen)
     steps = []
